@@ -2,6 +2,7 @@ mod c14;
 mod c19;
 mod c20;
 mod exec;
+mod maps;
 mod props;
 mod solver;
 mod term;
@@ -152,7 +153,8 @@ fn main() {
     for (k, scn) in scns.iter().enumerate() {
         // remaining budget split evenly over the remaining scenarios
         let left = budget.saturating_sub(start.elapsed().as_secs());
-        let share = (left / (n_scn - k as u64)).max(5);
+        // a scenario may use up to three times its fair share of what is left (at least 20 s)
+        let share = (3 * left / (n_scn - k as u64)).max(20).min(left.max(5));
         let cfg = Config { threads, max_paths: u64::MAX, deadline: Duration::from_secs(share), seed, cross_every: if tier == Tier::Quick { 50 } else { 10 }, split_target: threads * 12 };
         let r = std::panic::catch_unwind(std::panic::AssertUnwindSafe(|| exec::explore(&**scn, &cfg)));
         match r {
@@ -237,8 +239,20 @@ fn main() {
     let mut new_violations = 0;
     let mut known_hits: Vec<Value> = vec![];
     let mut lines: Vec<String> = vec![];
+    let accept: Vec<&str> = match prop.as_str() {
+        "C10" => vec!["C10", "C07"],
+        "C08" => vec!["C08", "C01", "C02"],
+        "C12" => vec!["C12", "C01"],
+        "C07" => vec!["C07", "C01"],
+        p => vec![p],
+    };
     for r in &reports {
         for f in &r.findings {
+            if !accept.iter().any(|a| f.kind.starts_with(a)) {
+                // found by a monitor that belongs to another property's check: not this check's verdict
+                eprintln!("note: {} in {} is outside the scope of {prop} and left to its own check", f.kind, f.scenario);
+                continue;
+            }
             let k = known.iter().find(|k| k.property == prop && k.kind == f.kind && k.scenario.as_ref().map_or(true, |s| f.scenario.contains(s.as_str())));
             match k {
                 Some(k) => {
